@@ -1,7 +1,7 @@
 (* C19 — sanity runs and non-vacuity *)
 From Coq Require Import ZArith List Bool.
 Import ListNotations.
-From GV Require Import Common.Wire C19.Model C19.Lemmas.
+From GV Require Import Common.Wire C19.Model C19.Lemmas gen.Gen_exporters C19.GenEquiv.
 Open Scope Z_scope.
 
 Definition cols1 : list column :=
@@ -35,4 +35,46 @@ Example empty_selection : export 1 1 (Some [false; false; false; false]) 0 cols1
   [(10, KFLOAT, []); (11, KINT, []); (12, KSTR, []); (13, KFLOAT, [])].
 Proof. vm_compute. reflexivity. Qed.
 Example full_selection : export 2 1 (Some [true; true; true; true]) 0 cols1 = export 2 1 None 0 cols1.
+Proof. vm_compute. reflexivity. Qed.
+
+(* ---------------- the translated exporters ---------------- *)
+(* flux (float), count (int16, iinfo.min = -32768), name (unicode text, categorical), and two derived components:
+   cum = running total of flux (a whole-column link function), twice = 2 * count (element-wise) *)
+Definition dcols1 : list dcol :=
+  [mkD 10 GNUM KFLOAT 0 false [[12; NAN; 26; -16]] (link_fn 0);
+   mkD 13 GNUM KFLOAT 0 true [[12; NAN; 26; -16]] (link_fn 2);
+   mkD 11 GNUM KINT (-32768) false [[3; -1; 0; 7]] (link_fn 0);
+   mkD 12 GCAT KSTR 0 false [[1; 2; 5; 3]] (link_fn 0);
+   mkD 14 GNUM KINT (-32768) true [[3; -1; 0; 7]] (link_fn 1)].
+Definition data1 (ndim : Z) : dset := mkDS ndim true false dcols1.
+Definition enc1 (z : Z) : Z := if z =? 5 then 6 else z.    (* one non-ASCII label becomes another text *)
+
+(* CSV of a subset: the selected rows of the FULL running total [12; 12; 38; 22], not the running total of the selected rows *)
+Example gen_csv_subset : data_to_astropy_table enc1 (Some m1) (data1 1) None =
+  Some [(10, mkA KFLOAT 1 0 [12; -16]); (11, mkA KINT 1 (-32768) [3; 7]); (12, mkA KSTR 1 0 [1; 3]);
+        (13, mkA KFLOAT 1 0 [12; 22]); (14, mkA KINT 1 (-32768) [6; 14])].
+Proof. vm_compute. reflexivity. Qed.
+(* fetching with the view is a different node with a different value for the whole-column link: cumsum of the selected rows *)
+Example fetch_view_differs : a_vals (fetch (data1 1) (nth 1 dcols1 (mkD 0 0 0 0 false [] (link_fn 0))) (Some m1)) = [12; -4]
+  /\ select m1 (a_vals (fetch (data1 1) (nth 1 dcols1 (mkD 0 0 0 0 false [] (link_fn 0))) None)) = [12; 22].
+Proof. vm_compute. split; reflexivity. Qed.
+(* HDF5, 2-d, components= filter: text ASCII-encoded then blanked with '', integers with 0 *)
+Example gen_hdf5_image : hdf5_writer enc1 (Some m1) (data1 2) (Some [12; 14; 10]) =
+  Some [(10, mkA KFLOAT 2 0 [12; NAN; NAN; -16]); (12, mkA KBYTES 2 0 [1; EMPTY; EMPTY; 3]); (14, mkA KINT 2 (-32768) [6; 0; 0; 14])].
+Proof. vm_compute. reflexivity. Qed.
+(* gridded FITS: numerical components only, BLANK = iinfo.min on the integer HDUs *)
+Example gen_fits_image : option_map (map (fun w : whdu => (fst (fst w), a_vals (snd (fst w)), h_blank (snd w)))) (fits_writer enc1 (Some m1) (data1 1) None) =
+  Some [(10, [12; NAN; NAN; -16], None); (11, [3; -32768; -32768; 7], Some (-32768));
+        (13, [12; NAN; NAN; 22], None); (14, [6; -32768; -32768; 14], Some (-32768))].
+Proof. vm_compute. reflexivity. Qed.
+(* the hypotheses of the transported theorems are satisfiable by this non-trivial dataset, for every format *)
+Example wf_all : forall fmt, 0 <= fmt <= 4 -> wf_data fmt (-32768) (data1 1).
+Proof.
+  intros fmt _ c H. simpl in H.
+  destruct H as [H | [H | [H | [H | [H | []]]]]]; subst c; unfold wf_hdf5, wf_fits; simpl; split; intros _;
+    repeat split; try tauto; try (intros; discriminate); try (intros E; exfalso; apply E; reflexivity); try (right; right; right; split; reflexivity).
+Qed.
+Example gen_shaped1 : gen_shaped (Some m1) (data1 1).
+Proof. simpl. intros d [H | [H | [H | [H | [H | []]]]]]; subst d; reflexivity. Qed.
+Example gen_is_model_csv : gen_export 0 enc1 (Some m1) (data1 1) None = Some (export 0 1 (Some m1) 0 (columns_of 0 enc1 (data1 1) None)).
 Proof. vm_compute. reflexivity. Qed.
